@@ -67,14 +67,32 @@ Definition render_piece (b : binding) (p : piece) : string :=
 Definition render (b : binding) (t : tmpl) : string :=
   fold_right (fun p acc => render_piece b p ++ acc) "" t.
 
-(* a command / dep before expansion, and after *)
-Inductive cmdt := TShell (t : tmpl) | TCall (task : tmpl) (vars : list (string * tmpl)).
-Inductive xcmd := XShell (s : string) | XCall (task : string) (vars : list (string * string)).
+(* the attributes of an entry besides its text / callee / vars: every field of ast.Cmd (ast.Dep: only
+   silent) that compiledTask must carry over unchanged to each command it produces.  platforms as
+   written ("linux", "amd64", "darwin/arm64"). *)
+Record attrs := {
+  a_ignore_error : bool;
+  a_silent : bool;
+  a_set : list string;
+  a_shopt : list string;
+  a_platforms : list string;
+  a_defer : bool
+}.
+Definition no_attrs : attrs :=
+  {| a_ignore_error := false; a_silent := false; a_set := []; a_shopt := []; a_platforms := []; a_defer := false |}.
 
+(* a command / dep before expansion, and after *)
+Inductive cmdt := TShell (a : attrs) (t : tmpl) | TCall (a : attrs) (task : tmpl) (vars : list (string * tmpl)).
+Inductive xcmd := XShell (a : attrs) (s : string) | XCall (a : attrs) (task : string) (vars : list (string * string)).
+
+Definition cattrs_of (c : cmdt) : attrs := match c with TShell a _ => a | TCall a _ _ => a end.
+Definition attrs_of (x : xcmd) : attrs := match x with XShell a _ => a | XCall a _ _ => a end.
+
+(* newCmd := cmd.DeepCopy(); then Cmd / Task / Vars are replaced by their rendering *)
 Definition inst (c : cmdt) (b : binding) : xcmd :=
   match c with
-  | TShell t => XShell (render b t)
-  | TCall t vs => XCall (render b t) (map (fun kv => (fst kv, render b (snd kv))) vs)
+  | TShell a t => XShell a (render b t)
+  | TCall a t vs => XCall a (render b t) (map (fun kv => (fst kv, render b (snd kv))) vs)
   end.
 
 (* ---------- where the items come from ---------- *)
@@ -221,10 +239,14 @@ Fixpoint list_eqb {A} (eqb : A -> A -> bool) (a b : list A) : bool :=
   | _, _ => false
   end.
 Definition pair_eqb (p q : string * string) : bool := String.eqb (fst p) (fst q) && String.eqb (snd p) (snd q).
+Definition attrs_eqb (a b : attrs) : bool :=
+  Bool.eqb (a_ignore_error a) (a_ignore_error b) && Bool.eqb (a_silent a) (a_silent b) &&
+  list_eqb String.eqb (a_set a) (a_set b) && list_eqb String.eqb (a_shopt a) (a_shopt b) &&
+  list_eqb String.eqb (a_platforms a) (a_platforms b) && Bool.eqb (a_defer a) (a_defer b).
 Definition xcmd_eqb (x y : xcmd) : bool :=
   match x, y with
-  | XShell s, XShell t => String.eqb s t
-  | XCall s vs, XCall t ws => String.eqb s t && list_eqb pair_eqb vs ws
+  | XShell a s, XShell b t => attrs_eqb a b && String.eqb s t
+  | XCall a s vs, XCall b t ws => attrs_eqb a b && String.eqb s t && list_eqb pair_eqb vs ws
   | _, _ => false
   end.
 Definition xl_eqb := list_eqb xcmd_eqb.
@@ -247,6 +269,28 @@ Fixpoint mon_segments (segs : list (bool * list xcmd)) (obs : list xcmd) : bool 
       mon_segments r (skipn n obs)
   end.
 Definition mon_for (es : list entry) (obs : list xcmd) : bool := mon_segments (map spec_segment es) obs.
+
+(* the attribute part on its own: every command of the segment an entry produces carries exactly the
+   entry's attributes (a Null entry produces nothing) *)
+Definition entry_attrs (e : entry) : option attrs :=
+  match e with
+  | Plain x => Some (attrs_of x)
+  | Null => None
+  | For _ _ c => Some (cattrs_of c)
+  end.
+
+Definition has_attrs (oa : option attrs) (x : xcmd) : bool :=
+  match oa with Some a => attrs_eqb a (attrs_of x) | None => false end.
+
+Fixpoint mon_attr_segments (segs : list (option attrs * nat)) (obs : list xcmd) : bool :=
+  match segs with
+  | [] => match obs with [] => true | _ => false end
+  | (oa, n) :: r =>
+      Nat.eqb (List.length (firstn n obs)) n && forallb (has_attrs oa) (firstn n obs) &&
+      mon_attr_segments r (skipn n obs)
+  end.
+Definition mon_attrs (es : list entry) (obs : list xcmd) : bool :=
+  mon_attr_segments (map (fun e => (entry_attrs e, List.length (snd (spec_segment e)))) es) obs.
 
 Definition deterministic (es : list entry) : bool :=
   forallb (fun e => fst (spec_segment e)) es.
